@@ -190,7 +190,7 @@ func c14BlockedDuringFlush(r *verdict.Run) {
 
 func checkC14(r *verdict.Run) {
 	r.Rule = "scripts over 3-5 connections of one emulator, commands executed one at a time in a generated global order: SELECT with valid and invalid indexes, the same key names in several databases, FLUSHDB/FLUSHALL (with SYNC/ASYNC), DBSIZE/KEYS, CLIENT SETNAME/GETNAME, HELLO 2/3/other, MULTI/EXEC/WATCH on one connection while others work, connections opened before and after flushes; " +
-		"oracle: every reply = reference model with per-connection sessions; after every step every database in use is dumped through an observer connection and compared (so a flush must be what every client sees). Plus: directed transactions MULTI; SELECT b; <FLUSHDB|FLUSHALL|DBSIZE|KEYS|RANDOMKEY|SET|DEL|RENAME|COPY|SCAN ...>; EXEC from database a for several (a, b), every database compared with the model afterwards; a client blocked on a key during FLUSHDB/FLUSHALL must be served by a later push; 2-4 connections select a never used database at the same moment (15 databases per fresh emulator): they must share one namespace (mutual reads, DBSIZE, FLUSHALL). distinct = (command, MULTI state, database, outcome class)"
+		"oracle: every reply = reference model with per-connection sessions; after every step every database in use is dumped through an observer connection and compared (so a flush must be what every client sees). Plus: directed transactions MULTI; SELECT b; <FLUSHDB|FLUSHALL|DBSIZE|KEYS|RANDOMKEY|SET|DEL|RENAME|COPY|SCAN ...>; EXEC from database a for several (a, b), every database compared with the model afterwards; the same key name watched in two databases by one connection (a write to either copy aborts EXEC, a write to a third copy does not); a client blocked on a key during FLUSHDB/FLUSHALL must be served by a later push; 2-4 connections select a never used database at the same moment (15 databases per fresh emulator): they must share one namespace (mutual reads, DBSIZE, FLUSHALL). distinct = (command, MULTI state, database, outcome class)"
 	nscripts := tierPick(r, 300, 6000)
 	perChild := 20
 	nsh := (nscripts + perChild - 1) / perChild
@@ -234,6 +234,7 @@ func checkC14(r *verdict.Run) {
 	})
 	c14BlockedDuringFlush(r)
 	c14QueuedSelectThenCommand(r)
+	c14WatchesPerDatabase(r)
 	c14ConcurrentFirstUse(r, tierPick(r, 24, 240))
 }
 
@@ -407,6 +408,65 @@ func c14QueuedSelectThenCommand(r *verdict.Run) {
 				r.Distinct(fmt.Sprintf("queued-select/%d-to-%d/body-%d", ab[0], ab[1], bi))
 			}
 			d.close()
+		}
+	}
+}
+
+// c14WatchesPerDatabase: a watched key is a (database, name) pair. One connection watches the same name in two
+// databases; another connection then writes that name in the first, the second, or a third database (or nowhere).
+func c14WatchesPerDatabase(r *verdict.Run) {
+	c, err := startChild(false)
+	if err != nil {
+		r.Inconclusive("cannot start child")
+		return
+	}
+	defer func() { c.Stop() }()
+	for _, order := range [][]string{{"1", "4"}, {"0", "1"}, {"5", "0"}, {"2", "2"}} {
+		for _, writeIn := range []string{order[0], order[1], "9", ""} {
+			for _, existing := range []bool{true, false} {
+				if !c.Alive() {
+					c.Stop()
+					if c, err = startChild(false); err != nil {
+						return
+					}
+				}
+				d, err := newDiffEnv(r, c, append([]string{"counter", "filler", "marker"}, c14Keys...))
+				if err != nil {
+					r.Inconclusive("infra: " + err.Error())
+					return
+				}
+				d.monitor = "dbs"
+				d.addConn()
+				ok := true
+				step := func(ci int, args ...string) {
+					if ok {
+						_, ok = d.stepOn(ci, args)
+						r.Eval(1)
+					}
+				}
+				if existing {
+					for _, db := range []string{order[0], order[1], "9"} {
+						step(1, "SELECT", db)
+						step(1, "SET", "k", "old-"+db)
+					}
+				}
+				step(0, "SELECT", order[0])
+				step(0, "WATCH", "k")
+				step(0, "SELECT", order[1])
+				step(0, "WATCH", "k", "filler")
+				if writeIn != "" {
+					step(1, "SELECT", writeIn)
+					step(1, "SET", "k", "changed")
+				}
+				step(0, "MULTI")
+				step(0, "SET", "marker", "1")
+				step(0, "EXEC")
+				step(0, "GET", "marker")
+				if ok && !d.lastDiverged {
+					r.Distinct(fmt.Sprintf("watch-two-dbs/%s+%s/write-in-%s/existing=%v", order[0], order[1], writeIn, existing))
+				}
+				d.close()
+			}
 		}
 	}
 }
